@@ -162,8 +162,14 @@ def run_one(ch, env):
     depth = (1, 0, 2, 1, 0, 2, 1, 3)[ch.draw(8, kind="depth")]
     if depth == 3 and ch.draw(4, kind="depth3_rare") != 0:
         depth = 1
+    # now and then a filtered layer with several hundred tiles (depth 5): size-dependent paths of the leaf visit
+    big = ch.draw(90, kind="large_sampling") == 89
+    if big:
+        update, depth = True, 5
     coordsys = (ToastCoordinateSystem.ASTRONOMICAL, ToastCoordinateSystem.PLANETARY)[ch.draw(2, kind="coordsys")]
     kind = ("F32", "F64", "RGB", "U8", "RGBA")[ch.draw(5, kind="sampler_kind")]
+    if big:
+        kind = "F32"
     if kind == "U8" and update:
         kind = "F32"        # 8-bit scalar samplers: clobbering mode only (integer updates keep the larger value)
     view = ch.draw(3, kind="sampler_output_view")
@@ -179,11 +185,18 @@ def run_one(ch, env):
         override = {"png": "npy", "npy": "npy" if kind not in ("RGB", "RGBA") else "png", "fits": "fits"}[default_fmt]
     fmt = override or default_fmt
     workers = (2, 1, 3, 4)[ch.draw(4, kind="workers")]
-    prior = ch.draw(3, kind="prior_state") == 2
-    concurrent = update and kind != "RGB" and ch.draw(3, kind="concurrent") == 2
+    prior = ch.draw(3, kind="prior_state") == 2 and not big
+    concurrent = update and kind != "RGB" and ch.draw(3, kind="concurrent") == 2 and not big
 
     cfg = None
-    if update:
+    if big:
+        m = (3, 5, 11)[ch.draw(3, kind="large_reject_mod")]
+        rejects = {Pos(5, x, y) for x in range(32) for y in range(32) if (x * 7 + y * 13) % m == 0}
+        rejects.add(Pos(1, ch.draw(2, kind="large_reject_x"), ch.draw(2, kind="large_reject_y")))
+        rejects.add(Pos(2, ch.draw(4, kind="large_reject_x2"), ch.draw(4, kind="large_reject_y2")))
+        cfg = common.PyrConfig("filtered", 5, None, rejects)
+        leaves = cfg.reachable_leaves()
+    elif update:
         cfg = common.PyrConfig("filtered", depth, None, set())
         p_acc = (0.85, 0.6, 1.0)[ch.draw(3, kind="p_accept")]
         for p in common.all_positions_dfs(depth, lo=1):
@@ -234,7 +247,7 @@ def run_one(ch, env):
 
     # one run in three first samples another layer (other depth and coordinate system) in the same process: state that
     # toasty keeps between sampling operations (caches keyed too coarsely) then shows up in the run under test
-    warm = ch.draw(3, kind="warm_up") == 2
+    warm = ch.draw(3, kind="warm_up") == 2 and not big
     res["probes"]["warm_up_sampling"] = int(warm)
     if warm:
         import tempfile
@@ -247,7 +260,8 @@ def run_one(ch, env):
         shutil.rmtree(wdir, ignore_errors=True)
 
     common.draw_progress(ch, res)
-    sim = Sim(ch, step_cap=80000)
+    sim = Sim(ch, step_cap=600000 if big else 80000)
+    res["probes"]["large_sampling"] = int(big)
     sim.rootdir = d
     sim.write_yields = (2, 1, 0)[ch.draw(3, kind="write_yields")]
     res["config"].update(common.sched_config(sim))
